@@ -696,6 +696,12 @@ pub fn suite_eq(ctx: &Ctx, thorough: bool) {
         bd = match pos { 0 => bd.with_namespace(t), 1 => bd.with_name(t), 2 => bd.with_version(t), 3 => bd.with_qualifier("k", t).unwrap(), _ => bd.with_subpath(t) };
         if let Ok(Ok(p)) = guarded(|| bd.build()) { if let Ok(s) = guarded(|| p.to_string()) { built.push((format!("builder field {pos} = {t:?}"), p, s)); } }
     } } }
+    // an empty-valued qualifier next to no qualifier (set through the setter, and directly on the public list)
+    for how in 0..3 {
+        let mut bd = GenericPurlBuilder::new("t".to_owned(), "n");
+        match how { 0 => {}, 1 => { bd = bd.with_qualifier("arch", "").unwrap(); }, _ => { let _ = bd.parts.qualifiers.insert("arch", ""); } }
+        if let Ok(Ok(p)) = guarded(|| bd.build()) { if let Ok(s) = guarded(|| p.to_string()) { built.push((format!("builder empty qualifier, variant {how}"), p, s)); } }
+    }
     for (k1, k2) in [("arch", "ARCH"), ("k", "K"), ("a.b", "A.B")] {
         for seq in [vec![(k1, "1")], vec![(k2, "1")], vec![(k1, "0"), (k2, "1")], vec![(k2, "0"), (k1, "1")], vec![(k1, "1"), (k1, "1")]] {
             let mut bd = GenericPurlBuilder::new("t".to_owned(), "n");
